@@ -262,6 +262,9 @@ func runC01(tb report.TB, rep *report.Reporter, c worldCase) {
 	if w.IdEdits > 0 {
 		classes = append(classes, "identity-edited")
 	}
+	if w.GCs > 0 {
+		classes = append(classes, "git-gc-between-actions")
+	}
 	unequal := false
 	for _, s := range dedup(shapes) {
 		classes = append(classes, "merge:"+s)
